@@ -206,3 +206,13 @@ def ma1mod(k: float, s: float, m: float) -> float:
 
 def tot2(a: float, b: float) -> float:
     return a + 2.0 * b
+
+
+def zdiv(a: float, b: float) -> float:
+    """Raises ZeroDivisionError for b == 0 (the failure path scan workers handle)."""
+    return float(a) / float(b)
+
+
+def zdiv_late(a: float, b: float, t: float) -> float:
+    """Fine at t=0, raises ZeroDivisionError during the integration when b == 0."""
+    return 0.0 if t <= 0.05 else float(a) / float(b)
